@@ -56,6 +56,8 @@ def rules(chk, db):
     ilrules.float_bool(chk, db, 'FB')
     read_dispatch(chk, db, 'UE')
     encrules.read_rules(chk, db, want=('LEN', 'GRD'))
+    chk.rule('CO', 'wrapper decoders are composed of exactly the documented component encodings', minimum=30)
+    encrules.composition(chk, db, 'CO', ('ReadPayload', 'Match'))
     chk.rule('NR.r', 'no run-time narrowing integral conversion in any ReadPayload (validation sees the full 64-bit length)', minimum=10)
     encrules.narrowing(chk, db, 'NR.r', {'ReadPayload', 'Read'})
 
